@@ -1,4 +1,8 @@
 """Registry of extracted-OCaml model runners: name -> (extraction file, driver, modules)."""
 RUNNERS = {
     "reach": ("Extract/ExtractReach.v", "reach_driver.ml", ["reach_model"]),
+    "bind": ("Extract/ExtractBind.v", "bind_driver.ml", ["bind_model"]),
+    "blocks": ("Extract/ExtractBlocks.v", "blocks_driver.ml", ["blocks_model"]),
+    "serial": ("Extract/ExtractSerial.v", "serial_driver.ml", ["serial_model"]),
+    "mro": ("Extract/ExtractMro.v", "mro_driver.ml", ["mro_model"]),
 }
